@@ -132,6 +132,84 @@ def oracle(created, out, end_now, align, P, add_at):
     return v
 
 
+def run_actor_case(period, align_kind, phase_f, lates, sub_at):
+    """The real ComponentMetricsResamplingActor: subscriptions arrive through its request channel
+    (sub_at: {component id: tick index after which the request is sent, 0 = before the first tick}),
+    resampled samples are read from the registry channels it publishes on."""
+    from frequenz.client.microgrid import ComponentMetricId
+    from frequenz.quantities import Quantity
+
+    from frequenz.sdk._internal._channels import ChannelRegistry
+    from frequenz.sdk.microgrid._data_sourcing import ComponentMetricRequest
+    from frequenz.sdk.microgrid._resampling import ComponentMetricsResamplingActor
+    from frequenz.sdk.timeseries import Sample
+
+    P = timedelta(seconds=period)
+    wall0 = T0_WALL + timedelta(seconds=phase_f * period)
+    align = {"none": None, "epoch": EPOCH, "epoch+quarter": EPOCH + timedelta(seconds=0.25 * period),
+             "future": T0_WALL + timedelta(days=1)}[align_kind]
+    with virtual_loop(wall=True, wall0=wall0) as loop:
+        reg = ChannelRegistry(name="verif")
+        ds_req = Broadcast(name="data-sourcing-requests")
+        ds_rx = ds_req.new_receiver()
+        rs_req = Broadcast(name="resampling-requests")
+        actor = ComponentMetricsResamplingActor(channel_registry=reg, data_sourcing_request_sender=ds_req.new_sender(),
+                                                resampling_request_receiver=rs_req.new_receiver(),
+                                                config=ResamplerConfig(resampling_period=P, align_to=align))
+        created = loop.wall_now()
+        actor.start()
+        loop.settle()
+        rs = rs_req.new_sender()
+        out = {}
+        rxs = {}
+
+        def subscribe(cid):
+            r = ComponentMetricRequest("verif", cid, ComponentMetricId.ACTIVE_POWER, None)
+            rxs[cid] = reg.get_or_create(Sample[Quantity], r.get_channel_name()).new_receiver(limit=200)
+            out[cid] = []
+            loop.create_task(rs.send(r))
+
+        def drain():
+            for cid, rx in rxs.items():
+                while len(rx):
+                    out[cid].append(rx.consume().timestamp)
+
+        for cid, k in sub_at.items():
+            if k == 0:
+                subscribe(cid)
+        loop.settle()
+        k = 0
+        H = N_TICKS * period
+        guard = 0
+        while True:
+            t = loop.next_timer()
+            if t is None or t > H + 1e-9:
+                break
+            late = lates.get(k, 0.0) * period
+            k += 1
+            loop.set_time(max(loop.time(), min(t + late, H)))
+            loop.settle()
+            drain()
+            for cid, kk in sub_at.items():
+                if kk == k:
+                    subscribe(cid)
+            loop.settle()
+            guard += 1
+            if guard > 400:
+                break
+        loop.set_time(H)
+        loop.settle()
+        drain()
+        end_now = loop.wall_now()
+        n_ds = 0
+        while len(ds_rx):
+            ds_rx.consume()
+            n_ds += 1
+        loop.create_task(actor.stop())
+        loop.settle()
+    return created, {f"c{cid}": v for cid, v in out.items()}, end_now, n_ds, align, P
+
+
 CLAUSES = ["consecutive_timestamps_one_period_apart", "timestamps_aligned_to_align_to", "first_timestamp_within_two_periods_of_creation",
            "series_resampled_together_share_timestamps", "no_tick_skipped_or_duplicated_for_good",
            "first_timestamp_one_period_after_creation_when_unaligned"]
@@ -183,8 +261,46 @@ def shard(args) -> Acc:
     return acc
 
 
+def actor_shard(args) -> Acc:
+    tier, period, align_kind, phase_f = args
+    acc = Acc()
+    late_sets = [()] + [((k, l),) for k in range(5) for l in (1.0, 1.5, 3.2)]
+    if tier != "quick":
+        late_sets += [((k1, 1.5), (k2, 3.2)) for k1 in range(4) for k2 in range(k1 + 1, 5)]
+    for lates in late_sets:
+        for sub_at in ({1: 0, 2: 0}, {1: 0, 2: 3}, {1: 0, 2: 2, 3: 5}):
+            created, out, end_now, n_ds, align, P = run_actor_case(period, align_kind, phase_f, dict(lates), sub_at)
+            add_at = {f"c{cid}": k for cid, k in sub_at.items()}
+            # oracle() keys the base series by add_at == 0; rename so the first subscription is the base
+            viol = oracle(created, out, end_now, align, P, add_at)
+            if n_ds != len(sub_at):
+                viol.append(("one_data_sourcing_request_per_subscription", {"requests": n_ds, "subscriptions": len(sub_at)}))
+            acc.evaluations += 1
+            acc.traces += 1
+            acc.transitions += sum(len(x) for x in out.values())
+            for c in CLAUSES:
+                acc.clauses[c] += 1
+            if lates:
+                acc.nontrivial += 1
+            acc.outcome(f"actor ticks={len(out['c1'])} lates={len(lates)} series={len(sub_at)}")
+            acc.state(repr(("actor", period, align_kind, phase_f, lates, sorted(sub_at.items()))))
+            case = {"driver": "actor", "period": period, "align": align_kind, "phase": phase_f, "lates": [list(x) for x in lates],
+                    "sub_at": {str(k): v for k, v in sub_at.items()}}
+            for clause, detail in viol:
+                acc.violation(Violation(clause, case, detail))
+    return acc
+
+
+def _dispatch(args):
+    return actor_shard(args[1:]) if args[0] == "actor" else shard(args)
+
+
 def run(tier: str, seed: int, workers: int):
     shards = []
+    for period in (1.0, 2.0):
+        for align_kind in ("none", "epoch", "epoch+quarter"):
+            for phase_f in (0.0, 1.0 / 3.0, 0.75):
+                shards.append(("actor", tier, period, align_kind, phase_f))
     for period in (1.0, 2.0):
         for align_kind in ("none", "epoch", "epoch+quarter", "future"):
             for phase_f in (0.0, 0.25, 1.0 / 3.0, 0.5, 0.75):
@@ -193,12 +309,14 @@ def run(tier: str, seed: int, workers: int):
         import random
 
         random.Random(seed).shuffle(shards)
-    acc = pmap_acc(shard, shards, workers)
+    acc = pmap_acc(_dispatch, shards, workers)
     meta = {
         "rule": "2 periods x 4 align_to settings (None, epoch, epoch + quarter period, a future instant) x 5 creation phases relative to the "
         "grid (incl. exactly aligned) x series added before start / after tick k (2-3 series) x every deviation set with at most "
         "1 (quick: plus selected pairs) / 2 (thorough) deviations among: timer wake-up k late by 0.3 / 1 / 1.5 / 3.2 periods, sink call k "
-        "taking 0.5 / 1 / 2.5 periods; horizon 10 periods; non-trivial = at least one deviation",
+        "taking 0.5 / 1 / 2.5 periods; horizon 10 periods; non-trivial = at least one deviation; plus the real "
+        "ComponentMetricsResamplingActor (subscriptions through its request channel, before the first tick or after tick k; outputs read "
+        "from the registry channels) for 18 configurations x timer-lateness sets",
         "assumptions": [
             "resample() is re-invoked whenever it returns or raises, as ComponentMetricsResamplingActor does (an IndexError raised when a "
             "series is added while a gather over slow sinks is in flight is counted, not flagged)",
@@ -211,6 +329,11 @@ def run(tier: str, seed: int, workers: int):
 
 
 def replay(case: dict):
+    if case.get("driver") == "actor":
+        sub_at = {int(k): v for k, v in case["sub_at"].items()}
+        created, out, end_now, n_ds, align, P = run_actor_case(case["period"], case["align"], case["phase"],
+                                                                {k: l for k, l in case["lates"]}, sub_at)
+        return oracle(created, out, end_now, align, P, {f"c{cid}": k for cid, k in sub_at.items()})
     devs = [tuple(d) for d in case["deviations"]]
     lates = {k: l for kind, k, l in devs if kind == "late"}
     sinks = {("a", k): l for kind, k, l in devs if kind == "sink"}
